@@ -790,6 +790,10 @@ func readStream(res *core.Result, log *core.Log, lib wkbadapt.Lib, encs []*enc, 
 		var g geom.T
 		var err error
 		if p := core.Guard(func() { g, err = lib.Read(r.With(rcap)) }); p != "" {
+			if r.Runaway {
+				res.Fail("runaway-reader", "runaway-reader", "Read (%s) went on calling the reader (%d calls for a %d-byte stream) although it kept refusing", what, len(r.Calls), len(stream))
+				return false
+			}
 			res.Fail("panic", "panic:read:"+core.PanicSite(p), "Read panicked (%s) on geometry %d of stream %x: %s", what, i, stream, p)
 			return false
 		}
